@@ -1,40 +1,58 @@
 """C19 — lazy lists are faithful and truly lazy (DESIGN.md section 6, C19).
 
-Three parties per generated program: the real `menpo.base.LazyList` driven with
-instrumented callables, an ordinary-list reference with provenance (the property
-oracle, independent of the Lean model), and the Lean model (`Core/LazyList.lean`).
+Three parties per generated program: the real `menpo.base.LazyList` (and the real importers of
+`menpo.io.input.base` on a scratch directory, with instrumented importer callables) driven with instrumented
+callables, an ordinary-list reference with provenance (the property oracle, independent of the Lean model),
+and the Lean model (`Core/LazyList.lean`, `Core/C19Glob.lean`, `Core/C19Reads.lean`, `Core/C19Dispatch.lean`).
 """
+import fnmatch
 import json
+import os
 import random
+import re
+import shutil
+import tempfile
 
 import numpy as np
 
 from . import common
+from . import extract_c19
 
 PROP = "C19"
 INFO = dict(
 
-    technique="Lean 4 proof (refinement of every lazy-list program to ordinary lists, by induction over programs) "
-              "+ model/implementation correspondence on random programs",
+    technique="Lean 4 proof (refinement of every lazy-list program to ordinary lists with provenance, by induction "
+              "over programs; evaluation-count theorems for reads, iteration, generator prefixes and the Sequence "
+              "mix-ins; frame theorems over histories of operations and reads on aliased list objects) "
+              "+ model/implementation correspondence on random programs, including the lists menpo's importers "
+              "build on a scratch directory, + dispatch tables regenerated from the live code with decide obligations",
     level_text="Theorems over an executable model of LazyList: for every program built from map (both forms), "
-               "int/negative/slice/fancy indexing, repeat, +, copy, to any depth, the lazy result evaluates to the "
-               "ordinary-list result (errors included), construction consults no callable, and a read evaluates "
-               "exactly the element's dependency chain.  The model is tied to /repo by running the real LazyList "
-               "with instrumented callables on random programs and diffing values, lengths, error kinds and "
-               "per-read evaluation logs against the Lean driver; an independent ordinary-list oracle decides "
-               "the property on the real code.",
+               "int/negative/slice/fancy indexing, repeat, +, copy, init_from_iterable and the glob importer lists, "
+               "to any depth, every element of the lazy result evaluates to the value AND the evaluation log "
+               "(own base access, then each mapped function once) of the ordinary-list result (errors included); "
+               "construction consults no callable; k reads evaluate k chains (no memo); iteration, generator prefixes, "
+               "in/index/count/reversed evaluate exactly the stated elements once; no history of operations and reads "
+               "changes what an existing list returns or evaluates.  The model is tied to /repo by running the real "
+               "LazyList and the real importers with instrumented callables on random programs and diffing values, "
+               "lengths, error kinds and evaluation logs against the Lean driver, and by decide obligations over the "
+               "argument-dispatch and receiver-write tables regenerated from the live code; an independent "
+               "ordinary-list oracle decides the property on the real code.",
     level_note="Trusted: Lean kernel; axioms propext/Classical.choice/Quot.sound; the Python harness and the "
-               "driver's parser; CPython list/slice semantics are modelled (Core/PyData.lean) and exercised by the "
-               "correspondence, not verified.  Receivers-unchanged is a value-model fact plus a check on real objects.",
-    rule="random programs (depth<=8, base lists of length 0..7, all constructors, all index container kinds); a case "
-         "is one program; distinct = distinct token sequence; non-trivial = depth >= 2",
-    partial=["receivers-unchanged: proved at heap level for the model (hrun_frame: no operation sequence writes an "
-             "existing list object) and tied to the code by heap histories with aliased operands and by the measured "
-             "table of receiver attributes each operation writes (must be empty); that CPython list methods used by "
-             "the code do not mutate their operands is modelled, not verified"],
+               "driver's parser; CPython list/slice/pathlib semantics are modelled (Core/PyData.lean, the sorted "
+               "directory listing is an input of the glob model) and exercised by the correspondence, not verified.",
+    rule="random programs (depth<=10, base lists of length 0..7, all constructors incl. init_from_iterable, the glob "
+         "importers over a scratch directory, import_video frame lists, a + a on one object, identity maps, "
+         "repeat(<=0), all index container kinds); a case is one program (or one heap history / generator run / "
+         "non-callable chain); distinct = distinct token sequence; non-trivial = depth >= 2 (history: >= 3 objects)",
+    partial=["that the CPython list / functools.partial / pathlib primitives the code is built from behave as "
+             "Core/PyData.lean and the glob model say (list indexing and slicing, sorted directory listing, "
+             "`[cs] * n`, `zip`, `chain`) is modelled and exercised by the correspondence, not verified",
+             "shuffle=True and verbose=True of the importers, and pickling of lazy lists, are outside the model "
+             "(not named by the property); LazyLists holding a local closure (after map, or init_from_iterable "
+             "without f) cannot be pickled at all - recorded in the evidence notes, not judged"],
     assumptions=["callables are deterministic functions of their argument (instrumented test callables)"],
     design_ref="DESIGN.md section 6, C19")
-IMPORTS = ["MenpoModel.Props.C19"]
+IMPORTS = ["MenpoModel.Props.C19", "MenpoModel.GenProps.C19"]
 THEOREMS = [
     "MenpoModel.LazyList.lazy_refines_list",
     "MenpoModel.LazyList.lazy_length_eq",
@@ -46,11 +64,75 @@ THEOREMS = [
     "MenpoModel.LazyList.select_elements",
     "MenpoModel.LazyList.repeat_elements",
     "MenpoModel.LazyList.sliceIndices_in_range",
+    "MenpoModel.LazyList.slice_select_total",
     "MenpoModel.LazyList.hstep_frame",
     "MenpoModel.LazyList.hrun_frame",
     "MenpoModel.LazyList.hstep_result",
     "MenpoModel.LazyList.read_after_ops_unchanged",
+    # Props/C19Reads.lean
+    "MenpoModel.LazyList.lazy_refines_listLog",
+    "MenpoModel.LazyList.refLog_values",
+    "MenpoModel.LazyList.getInt_refLog",
+    "MenpoModel.LazyList.readAt_getInt",
+    "MenpoModel.LazyList.readAt_error_silent",
+    "MenpoModel.LazyList.readAt_ok",
+    "MenpoModel.LazyList.readsAt_values",
+    "MenpoModel.LazyList.readsAt_log",
+    "MenpoModel.LazyList.readsAt_append",
+    "MenpoModel.LazyList.read_twice_reevaluates",
+    "MenpoModel.LazyList.iterFrom_spec",
+    "MenpoModel.LazyList.iterAll_spec",
+    "MenpoModel.LazyList.iter_refines",
+    "MenpoModel.LazyList.iter_prefix",
+    "MenpoModel.LazyList.iterAll_accesses",
+    "MenpoModel.LazyList.iterAll_calls",
+    "MenpoModel.LazyList.upToFirst_prefix",
+    "MenpoModel.LazyList.upToFirst_of_not_mem",
+    "MenpoModel.LazyList.containsTs_spec",
+    "MenpoModel.LazyList.indexTs_spec",
+    "MenpoModel.LazyList.countTs_spec",
+    "MenpoModel.LazyList.reversedTs_spec",
+    "MenpoModel.LazyList.evalLogX_callable",
+    "MenpoModel.LazyList.evalLogX_footprint",
+    "MenpoModel.LazyList.hstep_refused",
+    "MenpoModel.LazyList.hplay_heap",
+    "MenpoModel.LazyList.hplay_ops_silent",
+    "MenpoModel.LazyList.hplay_append",
+    "MenpoModel.LazyList.hplay_read_late",
+    "MenpoModel.LazyList.hplay_iterate_late",
+    # Props/C19Import.lean
+    "MenpoModel.LazyList.importKind_of_extOk",
+    "MenpoModel.LazyList.importKind_first",
+    "MenpoModel.LazyList.globWithSuffix_spec",
+    "MenpoModel.LazyList.glob_refused_iff",
+    "MenpoModel.LazyList.glob_paths_eq",
+    "MenpoModel.LazyList.glob_length",
+    "MenpoModel.LazyList.importThunk_evalLog",
+    "MenpoModel.LazyList.glob_read",
+    "MenpoModel.LazyList.glob_generator_prefix",
+    "MenpoModel.LazyList.iter_spec",
+    "MenpoModel.LazyList.iter_length",
+    "MenpoModel.LazyList.videoFrames_refLog",
+    "MenpoModel.LazyList.videoFrames_lazy",
+    "MenpoModel.LazyList.refLog_entry_chain",
+    # Props/C19Dispatch.lean
+    "MenpoModel.LazyList.getitem_element_only_integer_like",
+    "MenpoModel.LazyList.getitem_integer_like_as_list",
+    "MenpoModel.LazyList.getitem_slice_new_list",
+    "MenpoModel.LazyList.zeroD_coded_refuses",
+    "MenpoModel.LazyList.zeroD_repaired_reads",
+    "MenpoModel.LazyList.getitemRepaired_conservative",
+    "MenpoModel.LazyList.getitemRepaired_zeroDim",
+    "MenpoModel.LazyList.map_each_iff",
+    "MenpoModel.LazyList.map_single_iff",
+    "MenpoModel.LazyList.add_total",
 ]
+GEN_THEOREMS = ["MenpoModel.GenProps.C19." + t for t in extract_c19.OBLIGATIONS]
+
+JUDGE_ZERO_D = True
+IDENT = 7          # function id of the (logged) identity
+RES0 = 100         # function ids >= RES0: landmark resolvers (RES0 + frame number)
+TARGETS = ["MenpoModel.Props.C19", "MenpoModel.Drive.C19"]
 
 
 def base_val(b, i):
@@ -58,7 +140,218 @@ def base_val(b, i):
 
 
 def fn_val(f, v):
+    if f == IDENT:
+        return v
+    if f >= RES0:
+        return v + 100000 * (f - 99)
     return (f + 2) * v + (f + 1)
+
+
+# ---------------------------------------------------------------- the scratch directory the importers are run on
+
+EXT_CODE = {".pkl": 0, ".pkl.gz": 1, ".ljson": 2, ".pts": 3, ".png": 4, ".bmp": 5, ".avi": 6, ".mp4": 7}
+FILES = {
+    "pk": ["f00.pkl", "f01.pkl.gz", "f02.b.pkl", "F03.PKL", "f04.txt", "f05.pkl.bak", "f06.gz.pkl", "f07.pkl", "f08.PKL.GZ"],
+    "lm": ["f00.pts", "f01.ljson", "f02.txt", "f03.pts", "f04.x.ljson"],
+    "im": ["f00.png", "f01.bmp", "f02.png", "f03.txt", "f04.PNG"],
+    "vd": ["f00_n3.avi", "f01_n0.mp4", "f02_n2.mp4", "f03.txt"],
+    "em": [],
+}
+MAIN_PAT = {"pk": "*.pkl", "lm": "*.pts", "im": "*.png", "vd": "*.mp4", "em": "*.pkl"}
+N_PAT = 7
+
+
+def ext_code(ext):
+    if ext not in EXT_CODE:
+        EXT_CODE[ext] = 20 + len(EXT_CODE)
+    return EXT_CODE[ext]
+
+
+def possible_exts(name):
+    """own transcription of the documented rule: every tail of the suffix list, joined, lower-cased, longest first"""
+    parts = name.split(".")
+    sufs = ["." + p for p in parts[1:]] if len(parts) > 1 and parts[0] != "" else []
+    return ["".join(sufs[i:]).lower() for i in range(len(sufs))]
+
+
+def file_id(name):
+    return int(re.match(r"[fF](\d+)", name).group(1))
+
+
+def n_frames(name):
+    m = re.search(r"_n(\d+)", name)
+    return int(m.group(1)) if m else 0
+
+
+def live_maps():
+    import menpo.io.input.base as ib
+    return {"pk": ib.pickle_types, "lm": ib.image_landmark_types, "im": ib.image_types, "vd": ib.ffmpeg_video_types,
+            "em": ib.pickle_types}
+
+
+def known_codes(fam):
+    """codes of the extensions the live extension map of this importer family has now"""
+    return [ext_code(e) for e in sorted(live_maps()[fam].keys())]
+
+
+def chosen_kind(fam, name):
+    known = set(live_maps()[fam].keys())
+    for e in possible_exts(name):
+        if e in known:
+            return ext_code(e)
+    return None
+
+
+CUR = [None]      # the World the instrumented importers log into
+
+
+class Fixture:
+    """scratch directory with small pickle / landmark / image / (fake) video files; the extension maps of the
+    importers are wrapped so that every call of an importer is logged (and restored on close)"""
+
+    def __init__(self):
+        import gzip
+        import pickle
+        from PIL import Image as PILImage
+        import menpo.io as mio
+        from menpo.shape import PointCloud
+        self.root = os.path.realpath(tempfile.mkdtemp(prefix="c19-"))
+        self.saved = []
+        try:
+            for fam, names in FILES.items():
+                d = os.path.join(self.root, fam)
+                os.mkdir(d)
+                for nm in names:
+                    p = os.path.join(d, nm)
+                    exts = possible_exts(nm)
+                    kind = chosen_kind(fam, nm)
+                    i = file_id(nm)
+                    if kind is None or fam == "vd":
+                        open(p, "w").write("x")
+                    elif fam == "pk":
+                        val = base_val(kind, i)
+                        if kind == EXT_CODE[".pkl.gz"]:
+                            with gzip.open(p, "wb") as f:
+                                pickle.dump(val, f, protocol=2)
+                        else:
+                            with open(p, "wb") as f:
+                                pickle.dump(val, f, protocol=2)
+                    elif fam == "lm":
+                        tmp = os.path.join(self.root, "tmp" + [e for e in exts if e in (".pts", ".ljson")][0])
+                        mio.export_landmark_file(PointCloud(np.array([[float(i), float(kind)], [1.0, 2.0]])), tmp, overwrite=True)
+                        os.replace(tmp, p)
+                    elif fam == "im":
+                        img = PILImage.fromarray(np.full((2, 3), i, dtype=np.uint8))
+                        img.save(p, format="PNG" if exts[-1] == ".png" else "BMP")
+            self._instrument()
+        except Exception:
+            self.close()
+            raise
+
+    def _instrument(self):
+        import menpo.io.input.video as vid
+        seen = set()
+        for fam, m in live_maps().items():
+            if id(m) in seen:
+                continue
+            seen.add(id(m))
+            for ext in list(m.keys()):
+                orig = m[ext]
+                self.saved.append((m, ext, orig))
+                m[ext] = self._wrap(orig, ext_code(ext))
+        self.saved_reader = vid.FFMpegVideoReader
+        vid.FFMpegVideoReader = FakeReader
+
+    @staticmethod
+    def _wrap(orig, code):
+        def importer(filepath, *a, **k):
+            w = CUR[0]
+            if w is not None:
+                w.log.append("a:%d:%d" % (code, file_id(os.path.basename(str(filepath)))))
+            return orig(filepath, *a, **k)
+        importer.__wrapped__ = orig
+        return importer
+
+    def close(self):
+        import menpo.io.input.video as vid
+        for m, ext, orig in self.saved:
+            m[ext] = orig
+        self.saved = []
+        if getattr(self, "saved_reader", None) is not None:
+            vid.FFMpegVideoReader = self.saved_reader
+            self.saved_reader = None
+        shutil.rmtree(self.root, ignore_errors=True)
+
+    # what a pattern of kind `pk` is, and which names a correct glob lists for it (sorted), independently of pathlib
+    def pattern(self, fam, pk):
+        d = os.path.join(self.root, fam)
+        names = sorted(FILES[fam])
+        if pk == 0:
+            return d, names
+        if pk == 1:
+            return os.path.join(d, "*"), names
+        if pk == 2:
+            pat = MAIN_PAT[fam]
+        elif pk == 3:
+            pat = "f0*"
+        elif pk == 4:
+            pat = "*.nomatch"
+        elif pk == 5:
+            return os.path.join(d, "nonexistent"), None      # neither a glob nor a directory
+        else:
+            pat = "f*.p*"
+        return os.path.join(d, pat), [n for n in names if fnmatch.fnmatchcase(n, pat)]
+
+
+FX = [None]
+
+
+class FakeReader:
+    """stands in for FFMpegVideoReader (no ffmpeg in the sandbox): frame j of video v is a 2x2 image whose
+    channels hold (j, v, 0); reading a frame is logged as base access (10 + v, j)"""
+
+    def __init__(self, filepath, normalize=False, exact_frame_count=True):
+        nm = os.path.basename(str(filepath))
+        self.vid, self.n = file_id(nm), n_frames(nm)
+        self.fps = float(self.vid)
+        self.normalize = normalize
+
+    def __len__(self):
+        return self.n
+
+    def __getitem__(self, j):
+        w = CUR[0]
+        if w is not None:
+            w.log.append("a:%d:%d" % (10 + self.vid, j))
+        a = np.zeros((2, 2, 3), dtype=np.uint8)
+        a[..., 0], a[..., 1] = j, self.vid
+        return a / 255.0 if self.normalize else a
+
+
+def obs(x):
+    """the integer the model stands for an element: ints are themselves; imported objects carry their identity in
+    their data (first pixel / first landmark point / fps), never in anything the harness remembered"""
+    if isinstance(x, (int, np.integer)):
+        return int(x)
+    from menpo.image import Image
+    from menpo.base import LazyList
+
+    def px(v):
+        return int(round(float(v) * 255)) if np.asarray(v).dtype.kind == "f" else int(v)
+    if isinstance(x, Image):
+        if hasattr(x, "path"):
+            v = base_val(chosen_kind("im", x.path.name), px(x.pixels[0, 0, 0]))
+        else:
+            v = base_val(10 + px(x.pixels[1, 0, 0]), px(x.pixels[0, 0, 0]))
+        if x.has_landmarks and "R" in x.landmarks:
+            v += 100000 * (int(round(x.landmarks["R"].points[0, 0])) + 1)
+        return v
+    if isinstance(x, LazyList):
+        return base_val(chosen_kind("vd", x.path.name), int(x.fps))
+    if isinstance(x, dict):
+        pts = list(x.values())[0].points
+        return base_val(int(round(pts[0, 1])), int(round(pts[0, 0])))
+    raise TypeError("unobservable element %r" % type(x))
 
 
 class World:
@@ -75,9 +368,28 @@ class World:
 
     def fn(self, f):
         def h(x):
-            self.log.append("c:%d:%d" % (f, x))
-            return fn_val(f, x)
+            v = obs(x)
+            self.log.append("c:%d:%d" % (f, v))
+            return fn_val(f, v)
         return h
+
+    def image_resolver(self):
+        from menpo.shape import PointCloud
+
+        def resolver(path):
+            v = base_val(chosen_kind("im", path.name), file_id(path.name))
+            self.log.append("c:%d:%d" % (RES0, v))
+            return {"R": PointCloud(np.array([[0.0, 0.0]]))}
+        return resolver
+
+    def video_resolver(self):
+        from menpo.shape import PointCloud
+
+        def resolver(path, j):
+            v = base_val(10 + file_id(path.name), j)
+            self.log.append("c:%d:%d" % (RES0 + j, v))
+            return {"R": PointCloud(np.array([[float(j), float(j)]]))}
+        return resolver
 
     def take(self):
         l, self.log = self.log, []
@@ -86,7 +398,37 @@ class World:
 
 # ---------------------------------------------------------------- programs as nested tuples
 # ('B', b, n) ('M', f, p) ('E', fs, p) ('SI', ints, kind, p) ('SS', a, b, c, p) ('R', n, p)
-# ('A', p, q) ('AP', vs, kind, p) ('C', p)
+# ('A', p, q) ('AS', p) ('AP', vs, kind, p) ('C', p) ('I', f, vs, kind)
+# ('G', fam, patkind, max, resolver, normalize)  ('V', video index, resolver)
+
+TAGS = ("B", "M", "E", "SI", "SS", "R", "A", "AS", "AP", "C", "I", "G", "V")
+
+
+def g_files(p):
+    """(pattern, listing or None) of a G leaf on the current fixture"""
+    return FX[0].pattern(p[1], p[2])
+
+
+def g_toks(p):
+    fam, mx, res = p[1], p[3], p[4]
+    _, names = g_files(p)
+    names = names or []
+    out = ["G", str(RES0) if (res and fam == "im") else "N"]
+    kn = known_codes(fam)
+    out += [str(len(kn))] + [str(c) for c in kn]
+    out.append(str(len(names)))
+    for nm in names:
+        ex = [ext_code(e) for e in possible_exts(nm)]
+        out += [str(file_id(nm)), str(len(ex))] + [str(c) for c in ex]
+    out.append("N" if mx is None else str(mx))
+    return out
+
+
+def v_toks(p):
+    nm = FILES["vd"][p[1]]
+    b, n = 10 + file_id(nm), n_frames(nm)
+    return ["V", str(b), str(n), str(RES0) if p[2] else "N"]
+
 
 def toks(p):
     t = p[0]
@@ -104,22 +446,57 @@ def toks(p):
         return ["R", str(p[1])] + toks(p[2])
     if t == "A":
         return ["A"] + toks(p[1]) + toks(p[2])
+    if t == "AS":
+        return ["A"] + toks(p[1]) + toks(p[1])
     if t == "AP":
         return ["AP", str(len(p[1]))] + [str(x) for x in p[1]] + toks(p[3])
     if t == "C":
         return ["C"] + toks(p[1])
+    if t == "I":
+        return ["I", "N" if p[1] is None else str(p[1]), str(len(p[2]))] + [str(x) for x in p[2]]
+    if t == "G":
+        return g_toks(p)
+    if t == "V":
+        return v_toks(p)
     raise ValueError(t)
 
 
+def is_prog(x):
+    return isinstance(x, tuple) and len(x) > 0 and isinstance(x[0], str) and x[0] in TAGS
+
+
 def depth(p):
-    subs = [x for x in p[1:] if isinstance(x, tuple) and x and isinstance(x[0], str) and x[0] in
-            ("B", "M", "E", "SI", "SS", "R", "A", "AP", "C")]
+    subs = [x for x in p[1:] if is_prog(x)]
     return 1 + max([depth(s) for s in subs], default=0)
 
 
 class RefErr(Exception):
     def __init__(self, kind):
         self.kind = kind
+
+
+def g_expect(p):
+    """what an ordinary list of imported objects would hold: [(value, log)] per wrapped path, or RefErr"""
+    fam, mx, res = p[1], p[3], p[4]
+    _, names = g_files(p)
+    if names is None:
+        raise RefErr("value")
+    matched = [nm for nm in names if chosen_kind(fam, nm) is not None]
+    if mx is not None:
+        if mx <= 0:
+            raise RefErr("value")
+        matched = matched[:mx]
+    if not matched:
+        raise RefErr("value")
+    out = []
+    for nm in matched:
+        k, i = chosen_kind(fam, nm), file_id(nm)
+        v, lg = base_val(k, i), ["a:%d:%d" % (k, i)]
+        if res and fam == "im":
+            lg = lg + ["c:%d:%d" % (RES0, v)]
+            v = fn_val(RES0, v)
+        out.append((v, lg))
+    return out
 
 
 def ref_eval(p):
@@ -151,11 +528,50 @@ def ref_eval(p):
     if t == "A":
         a = ref_eval(p[1])
         return a + ref_eval(p[2])
+    if t == "AS":
+        a = ref_eval(p[1])
+        return a + a
     if t == "AP":
         return ref_eval(p[3]) + [(v, []) for v in p[1]]
     if t == "C":
         return ref_eval(p[1])
+    if t == "I":
+        if p[1] is None:
+            return [(v, []) for v in p[2]]
+        return [(fn_val(p[1], v), ["c:%d:%d" % (p[1], v)]) for v in p[2]]
+    if t == "G":
+        return g_expect(p)
+    if t == "V":
+        nm = FILES["vd"][p[1]]
+        b = 10 + file_id(nm)
+        out = []
+        for j in range(n_frames(nm)):
+            v, lg = base_val(b, j), ["a:%d:%d" % (b, j)]
+            if p[2]:
+                lg = lg + ["c:%d:%d" % (RES0 + j, v)]
+                v = fn_val(RES0 + j, v)
+            out.append((v, lg))
+        return out
     raise ValueError(t)
+
+
+def call_importer(p, w, as_generator=False):
+    """the real glob importer of a G leaf"""
+    import menpo.io as mio
+    from pathlib import Path
+    fam, mx, res, norm = p[1], p[3], p[4], p[5]
+    pat, _ = g_files(p)
+    if p[2] % 2 == 1:
+        pat = Path(pat)
+    if fam in ("pk", "em"):
+        return mio.import_pickles(pat, max_pickles=mx, as_generator=as_generator)
+    if fam == "lm":
+        return mio.import_landmark_files(pat, max_landmarks=mx, as_generator=as_generator)
+    if fam == "im":
+        return mio.import_images(pat, max_images=mx, landmark_resolver=w.image_resolver() if res else None,
+                                 normalize=norm, as_generator=as_generator)
+    return mio.import_videos(pat, max_videos=mx, landmark_resolver=w.video_resolver() if res else None,
+                             normalize=norm, as_generator=as_generator)
 
 
 def impl_build(p, w, nodes):
@@ -167,7 +583,8 @@ def impl_build(p, w, nodes):
     elif t == "M":
         r = impl_build(p[2], w, nodes).map(w.fn(p[1]))
     elif t == "E":
-        r = impl_build(p[2], w, nodes).map([w.fn(f) for f in p[1]])
+        fs = [w.fn(f) for f in p[1]]
+        r = impl_build(p[2], w, nodes).map(tuple(fs) if sum(p[1]) % 3 == 0 else fs)
     elif t == "SI":
         ints, kind = p[1], p[2]
         if kind == "list":
@@ -178,35 +595,75 @@ def impl_build(p, w, nodes):
             idx = np.array(ints, dtype=np.int64)
         elif kind == "gen":
             idx = (i for i in ints)
+        elif kind == "int16":
+            idx = np.array(ints, dtype=np.int16)
+        elif kind == "pybool" and all(i in (0, 1) for i in ints):
+            idx = [bool(i) for i in ints]      # Python bools are ints: [True, False] picks elements 1 and 0
+        elif kind == "range" and len(ints) >= 2 and ints[1] != ints[0] and \
+                list(range(ints[0], ints[0] + (ints[1] - ints[0]) * len(ints), ints[1] - ints[0])) == list(ints):
+            idx = range(ints[0], ints[0] + (ints[1] - ints[0]) * len(ints), ints[1] - ints[0])
         else:
             idx = [np.int32(i) for i in ints]
         r = impl_build(p[3], w, nodes)[idx]
     elif t == "SS":
-        r = impl_build(p[4], w, nodes)[slice(p[1], p[2], p[3])]
+        a, b, c = p[1:4]
+        if ((a or 0) + (b or 0)) % 2 == 1:      # numpy integers as slice bounds
+            a, b = (None if a is None else np.int64(a)), (None if b is None else np.int32(b))
+        r = impl_build(p[4], w, nodes)[slice(a, b, c)]
     elif t == "R":
         r = impl_build(p[2], w, nodes).repeat(p[1])
     elif t == "A":
         a = impl_build(p[1], w, nodes)
         r = a + impl_build(p[2], w, nodes)
+    elif t == "AS":
+        a = impl_build(p[1], w, nodes)
+        r = a + a
     elif t == "AP":
-        vs = list(p[1]) if p[2] == "list" else tuple(p[1])
+        vs = {"list": list, "tuple": tuple, "gen": (lambda q: (x for x in q)), "array": np.array}[p[2]](p[1])
         r = impl_build(p[3], w, nodes) + vs
     elif t == "C":
         r = impl_build(p[1], w, nodes).copy()
+    elif t == "I":
+        vs = {"list": list, "tuple": tuple, "gen": (lambda q: (x for x in q))}[p[3]](p[2])
+        r = LazyList.init_from_iterable(vs) if p[1] is None else LazyList.init_from_iterable(vs, f=w.fn(p[1]))
+    elif t == "G":
+        r = call_importer(p, w)
+    elif t == "V":
+        import menpo.io as mio
+        nm = FILES["vd"][p[1]]
+        pre = len(w.log)
+        r = mio.import_video(os.path.join(FX[0].root, "vd", nm), landmark_resolver=w.video_resolver() if p[2] else None,
+                             normalize=False)
+        opened = w.log[pre:]
+        del w.log[pre:]
+        if opened != ["a:%d:%d" % (chosen_kind("vd", nm), file_id(nm))]:
+            w.log.append("import_video evaluated %r" % (opened,))      # shows up as construction-evaluated
     else:
         raise ValueError(t)
     nodes.append((p, r))
     return r
 
 
+def gen_leaf(rng, nb):
+    k = rng.random()
+    if k < 0.62:
+        return ("B", rng.randrange(nb), rng.choice([0, 0, 1, 1, 2, 3, 3, 4, 5, 6, 7]))
+    if k < 0.74:
+        f = None if rng.random() < 0.4 else rng.choice([0, 1, 2, 3, IDENT])
+        vs = tuple(rng.randint(-30, 30) for _ in range(rng.choice([0, 1, 2, 3, 5])))
+        return ("I", f, vs, rng.choice(["list", "tuple", "gen"]))
+    if k < 0.94:
+        fam = rng.choice(["pk", "pk", "lm", "im", "im", "vd", "em"])
+        mx = rng.choice([None, None, None, 1, 2, 3, 10, 0, -1]) if rng.random() < 0.9 else None
+        return ("G", fam, rng.randrange(N_PAT), mx, rng.random() < 0.5, rng.random() < 0.5)
+    return ("V", rng.choice([0, 0, 1, 2]), rng.random() < 0.6)
+
+
 def gen_prog(rng, max_depth, nb):
     """bottom-up, mostly valid; stops growing at the first erroring node"""
-    def leaf():
-        return ("B", rng.randrange(nb), rng.choice([0, 1, 2, 3, 3, 4, 5, 6, 7]))
-
     def grow(d):
         if d <= 1 or rng.random() < 0.12:
-            return leaf()
+            return gen_leaf(rng, nb)
         sub = grow(d - 1)
         try:
             n = len(ref_eval(sub))
@@ -214,11 +671,23 @@ def gen_prog(rng, max_depth, nb):
             return sub
         k = rng.random()
         if k < 0.16:
-            return ("M", rng.randrange(4), sub)
-        if k < 0.28:
+            return ("M", rng.choice([0, 1, 2, 3, IDENT]), sub)
+        if k < 0.27:
             m = n if rng.random() < 0.9 else max(0, n + rng.choice([-1, 1, 2]))
-            return ("E", tuple(rng.randrange(4) for _ in range(m)), sub)
-        if k < 0.44:
+            return ("E", tuple(rng.choice([0, 1, 2, 3, IDENT]) for _ in range(m)), sub)
+        if k < 0.43:
+            kind = rng.choice(["list", "tuple", "ndarray", "gen", "npint", "int16", "range", "pybool"])
+            if kind == "pybool":
+                if n >= 2:
+                    return ("SI", tuple(rng.randint(0, 1) for _ in range(rng.randint(0, 4))), kind, sub)
+                kind = "list"
+            if kind == "range" and n >= 2:
+                st = rng.choice([1, 2, -1])
+                a0 = rng.randint(0, n - 1)
+                ints = [i for i in range(a0, a0 + st * rng.randint(2, 4), st) if -n <= i < n]
+                if len(ints) < 2:
+                    kind = "list"
+                return ("SI", tuple(ints), kind, sub)
             m = rng.choice([0, 1, 2, 3, 5])
             lo, hi = (-n, n - 1) if n else (0, 0)
             ints = []
@@ -227,29 +696,44 @@ def gen_prog(rng, max_depth, nb):
                     ints.append(rng.choice([n, -n - 1, n + 2]))
                 else:
                     ints.append(rng.randint(lo, hi))
-            return ("SI", tuple(ints), rng.choice(["list", "tuple", "ndarray", "gen", "npint"]), sub)
-        if k < 0.66:
+            return ("SI", tuple(ints), "list" if kind == "range" else kind, sub)
+        if k < 0.64:
             def bound():
                 return None if rng.random() < 0.3 else rng.randint(-n - 2, n + 2)
             step = rng.choice([None, 1, 1, 2, 3, -1, -1, -2, -3]) if rng.random() > 0.03 else 0
             return ("SS", bound(), bound(), step, sub)
-        if k < 0.76:
-            return ("R", rng.choice([0, 1, 2, 2, 3]), sub)
-        if k < 0.88:
+        if k < 0.73:
+            return ("R", rng.choice([0, 0, 1, 2, 2, 3, -1]), sub)
+        if k < 0.83:
             return ("A", sub, grow(rng.randint(1, max(1, d - 1))))
+        if k < 0.88:
+            return ("AS", sub)
         if k < 0.95:
             return ("AP", tuple(rng.randint(-50, 50) for _ in range(rng.randint(0, 3))),
-                    rng.choice(["list", "tuple"]), sub)
+                    rng.choice(["list", "tuple", "gen", "array"]), sub)
         return ("C", sub)
 
     return grow(rng.randint(2, max_depth))
 
 
-def run_program(ctx, p, reads_rng):
+def fmt_log(lg):
+    return ",".join(lg) if lg else "-"
+
+
+def safe_obs(x):
+    try:
+        return obs(x)
+    except Exception:      # noqa: BLE001
+        return "unobservable:" + type(x).__name__
+
+
+def run_program(ctx, p, reads_rng, extra=None):
     """run one program on the real code + oracle; returns the implementation observation string
-    in the model's output format (for the correspondence diff)"""
+    in the model's output format (for the correspondence diff).  `extra` (a list) receives further
+    (driver request, implementation observation, replay) triples: read sequences, iteration, mix-ins"""
     site = "C19/program"
     w = World()
+    CUR[0] = w
     nodes = []
     rp = {"program": toks(p), "program_tree": repr(p)}
     try:
@@ -273,6 +757,16 @@ def run_program(ctx, p, reads_rng):
         ctx.check(exp_err == got_err, site, "error-kind",
                   "ordinary list semantics gives %r, LazyList gives %r" % (exp_err or "ok", got_err or "ok"), rp)
         ctx.count("err:" + str(exp_err))
+        # a refused operation leaves every list built so far as it was
+        for sub, obj in nodes:
+            try:
+                sexp = ref_eval(sub)
+                vals = [safe_obs(obj[k]) for k in range(len(obj))]
+            except Exception:      # noqa: BLE001
+                continue
+            w.take()
+            ctx.check(vals == [e[0] for e in sexp], site, "receiver-changed-by-refused-operation",
+                      "a list a refused operation was applied to no longer behaves as before", dict(rp, receiver=toks(sub)))
         return "err " + got_err if got_err else None
     # length
     n = len(ll)
@@ -281,51 +775,292 @@ def run_program(ctx, p, reads_rng):
     # every element, with the log of that single read
     for j in range(n):
         try:
-            v = ll[j]
+            v = safe_obs(ll[j])
         except Exception as e:
             ctx.fail(site, "read-raises", "reading element %d raised %s" % (j, type(e).__name__), rp)
             return None
         lg = w.take()
-        out.append("%d %s" % (v, ",".join(lg) if lg else "-"))
+        out.append("%s %s" % (v, fmt_log(lg)))
         if j < len(expect):
             ev, elg = expect[j]
             ctx.check(v == ev, site, "value", "element %d is %r, ordinary list gives %r" % (j, v, ev), dict(rp, index=j))
             ctx.check(lg == elg, site, "read-log",
                       "reading element %d evaluated %r, its dependencies are %r" % (j, lg, elg), dict(rp, index=j))
-    # negative and out-of-range integer reads, iteration
-    for _ in range(2):
+    if len(expect) != n:
+        return " ".join(out)
+    vals = [e[0] for e in expect]
+    tk = " ".join(toks(p))
+    # a sequence of integer reads (negative, out of range, repeated, numpy integer types): no memo
+    idxs, res, seq_log, exp_log = [], [], [], []
+    for _ in range(reads_rng.randint(2, 4)):
         i = reads_rng.randint(-n - 1, n)
+        idxs += [i, i] if reads_rng.random() < 0.35 else [i]
+    for i in idxs:
+        r = reads_rng.random()
+        key = np.int64(i) if r < 0.2 else (np.int16(i) if r < 0.3 else (bool(i) if r < 0.4 and i in (0, 1) else i))
         try:
-            v = ll[np.int64(i)] if reads_rng.random() < 0.3 else ll[i]
+            v = safe_obs(ll[key])
             ok = True
         except IndexError:
             ok = False
-        w.take()
+        except Exception as e:      # noqa: BLE001
+            ctx.fail(site, "int-index", "ll[%r] raised %s" % (key, type(e).__name__), dict(rp, index=i))
+            ok = False
+        seq_log += w.take()
         try:
-            ev = expect[i][0]
+            ev, elg = expect[i]
             eok = True
         except IndexError:
-            eok = False
+            eok, elg = False, []
+        exp_log += elg
+        res.append(str(v) if ok else "E")
         ctx.check(ok == eok and (not ok or v == ev), site, "int-index",
                   "ll[%d]: %s vs ordinary list %s" % (i, v if ok else "IndexError", ev if eok else "IndexError"), dict(rp, index=i))
-    it = list(ll)
-    w.take()
-    ctx.check(it == [e[0] for e in expect], site, "iteration", "list(ll) differs from the ordinary list", rp)
+    ctx.check(seq_log == exp_log, site, "reads-log",
+              "reads %r evaluated %r; the dependency chains of those elements, once per read, are %r" % (idxs, seq_log[:12], exp_log[:12]),
+              dict(rp, reads=idxs))
+    if extra is not None:
+        extra.append(("reads %d %s %s" % (len(idxs), " ".join(str(i) for i in idxs), tk),
+                      "ok " + " ".join(res) + " # " + fmt_log(seq_log), dict(rp, reads=idxs)))
+    # iteration: every element exactly once, in order
+    it = [safe_obs(x) for x in ll]
+    it_log = w.take()
+    all_log = [x for e in expect for x in e[1]]
+    ctx.check(it == vals, site, "iteration", "list(ll) differs from the ordinary list", rp)
+    ctx.check(it_log == all_log, site, "iteration-log",
+              "iterating evaluated %r, every element once in order is %r" % (it_log[:12], all_log[:12]), rp)
+    if extra is not None:
+        extra.append(("iter " + tk, "ok %d%s # %s" % (len(it), "".join(" %s" % v for v in it), fmt_log(it_log)), rp))
+    # one of the other ways of reading
+    mode = reads_rng.choice(["prefix", "contains", "index", "count", "reversed", "0d"])
+    if mode == "prefix":
+        k = reads_rng.randint(0, n + 1)
+        g = iter(ll)
+        got = []
+        for _ in range(k):
+            try:
+                got.append(safe_obs(next(g)))
+            except StopIteration:
+                break
+        lg = w.take()
+        ek = min(k, n)
+        ctx.check(got == vals[:ek] and lg == [x for e in expect[:ek] for x in e[1]], site, "generator-prefix",
+                  "consuming %d items gave %r and evaluated %r" % (k, got, lg[:12]), dict(rp, consumed=k))
+        obs_s, req = "ok %d%s # %s" % (len(got), "".join(" %s" % v for v in got), fmt_log(lg)), "prefix %d %s" % (k, tk)
+    elif mode in ("contains", "index", "count"):
+        v = reads_rng.choice(vals) if vals and reads_rng.random() < 0.7 else 987654
+        first = vals.index(v) if v in vals else None
+        plog = [x for e in (expect if first is None or mode == "count" else expect[:first + 1]) for x in e[1]]
+        wrapped = _Obs(ll)
+        try:
+            if mode == "contains":
+                r = v in wrapped
+                want, obs_s = (v in vals), "ok %d" % int(r)
+            elif mode == "count":
+                r = wrapped.count(v)
+                want, obs_s = vals.count(v), "ok %d" % r
+            else:
+                try:
+                    r = wrapped.index(v)
+                except ValueError:
+                    r = None
+                want, obs_s = first, "ok %s" % ("none" if r is None else r)
+        except Exception as e:      # noqa: BLE001
+            ctx.fail(site, "mixin-raises", "%s raised %s" % (mode, type(e).__name__), dict(rp, value=v))
+            return " ".join(out)
+        lg = w.take()
+        ctx.check(r == want and lg == plog, site, "sequence-" + mode,
+                  "%s(%d) gave %r (ordinary list %r) and evaluated %r (expected %r)" % (mode, v, r, want, lg[:10], plog[:10]),
+                  dict(rp, value=v))
+        obs_s, req = obs_s + " # " + fmt_log(lg), "%s %d %s" % (mode, v, tk)
+    elif mode == "reversed":
+        got = [safe_obs(x) for x in reversed(ll)]
+        lg = w.take()
+        ctx.check(got == vals[::-1] and lg == [x for e in expect[::-1] for x in e[1]], site, "sequence-reversed",
+                  "reversed(ll) gave %r and evaluated %r" % (got, lg[:12]), rp)
+        obs_s, req = "ok%s # %s" % ("".join(" %s" % v for v in got), fmt_log(lg)), "reversed " + tk
+    else:
+        # an integer index given as a 0-dimensional integer array: an ordinary list returns the element
+        i = reads_rng.randint(-n - 1, n)
+        try:
+            ev, elg = expect[np.array(i)]
+            want = "ok %s %s" % (ev, fmt_log(elg))
+        except IndexError:
+            want = "err index"
+        try:
+            got = "ok %s" % safe_obs(ll[np.array(i)])
+            got += " " + fmt_log(w.take())
+        except IndexError:
+            got = "err index"
+        except TypeError:
+            got = "err type"
+        except Exception as e:      # noqa: BLE001
+            got = "err other:" + type(e).__name__
+        w.take()
+        ctx.check(got == want or not JUDGE_ZERO_D, "C19/getitem-0d-array", "refused",
+                  "ll[np.array(%d)] gives %r; an ordinary list of the same elements gives %r" % (i, got, want),
+                  {"program": rp["program"], "program_tree": rp["program_tree"], "index": i,
+                   "python": "ll[np.array(%d)]  # vs  list(ll)[np.array(%d)]" % (i, i)})
+        obs_s, req = got, "get0d ? %d %s" % (i, tk)
+    if extra is not None:
+        extra.append((req, obs_s, rp))
+    ctx.count("read-mode:" + mode)
     # receivers behave as before: every intermediate list still equals its own reference
     for sub, obj in nodes[:-1]:
         try:
             sexp = ref_eval(sub)
         except RefErr:
             continue
-        vals = None
+        rv = None
         try:
-            vals = [obj[k] for k in range(len(obj))]
+            rv = [safe_obs(obj[k]) for k in range(len(obj))]
         except Exception:
             pass
-        w.take()
-        ctx.check(vals == [e[0] for e in sexp], site, "receiver-changed",
+        lg = w.take()
+        ctx.check(rv == [e[0] for e in sexp] and lg == [x for e in sexp for x in e[1]], site, "receiver-changed",
                   "a list an operation was applied to no longer behaves as before", dict(rp, receiver=toks(sub)))
     return " ".join(out)
+
+
+class _Obs:
+    """view of a lazy list through `obs` for the Sequence mix-ins (which compare elements with ==); the mix-in
+    methods themselves are the inherited ones of the wrapped object's class"""
+
+    def __init__(self, ll):
+        self.ll = ll
+
+    def __contains__(self, v):
+        return type(self.ll).__contains__(_ObsSeq(self.ll), v)
+
+    def index(self, v):
+        return type(self.ll).index(_ObsSeq(self.ll), v)
+
+    def count(self, v):
+        return type(self.ll).count(_ObsSeq(self.ll), v)
+
+
+class _ObsSeq:
+    def __init__(self, ll):
+        self.ll = ll
+
+    def __getitem__(self, i):
+        return obs(self.ll[i])
+
+    def __len__(self):
+        return len(self.ll)
+
+    def __iter__(self):
+        return type(self.ll).__iter__(self)
+
+
+def generator_case(ctx, rng, lines, pending):
+    """as_generator=True of a glob importer: nothing imported until consumed, k items import the first k paths"""
+    site = "C19/importer-generator"
+    p = ("G", rng.choice(["pk", "pk", "lm", "im", "vd"]), rng.randrange(N_PAT), rng.choice([None, None, 1, 2, 3, 0]),
+         rng.random() < 0.5, rng.random() < 0.5)
+    w = World()
+    CUR[0] = w
+    rp = {"program": toks(p), "program_tree": repr(p), "as_generator": True}
+    try:
+        expect, exp_err = ref_eval(p), None
+    except RefErr as e:
+        expect, exp_err = None, e.kind
+    try:
+        g, got_err = call_importer(p, w, as_generator=True), None
+    except ValueError:
+        g, got_err = None, "value"
+    except Exception as e:      # noqa: BLE001
+        g, got_err = None, "other:" + type(e).__name__
+    ctx.case(("gen",) + p, nontrivial=True, sample={"generator": " ".join(toks(p))})
+    ctx.check(not w.take(), site, "construction-evaluated", "creating the generator imported something", rp)
+    if not ctx.check(exp_err == got_err, site, "error-kind",
+                     "expected %r, importer gave %r" % (exp_err or "ok", got_err or "ok"), rp) or got_err:
+        return
+    ctx.check(not hasattr(g, "__len__") and hasattr(g, "__next__"), site, "not-a-generator", "as_generator=True did not return a generator", rp)
+    k = rng.randint(0, len(expect) + 1)
+    got = []
+    for _ in range(k):
+        try:
+            got.append(safe_obs(next(g)))
+        except StopIteration:
+            break
+    lg = w.take()
+    ek = min(k, len(expect))
+    ctx.check(got == [e[0] for e in expect[:ek]] and lg == [x for e in expect[:ek] for x in e[1]], site, "generator-prefix",
+              "consuming %d items gave %r and evaluated %r" % (k, got, lg[:12]), dict(rp, consumed=k))
+    cid = "g%d" % len(lines)
+    lines.append("%s prefix %d %s" % (cid, k, " ".join(toks(p))))
+    pending[cid] = ("ok %d%s # %s" % (len(got), "".join(" %s" % v for v in got), fmt_log(lg)), dict(rp, consumed=k), "prefix")
+    rest = [safe_obs(x) for x in g]
+    lg = w.take()
+    ctx.check(rest == [e[0] for e in expect[ek:]] and lg == [x for e in expect[ek:] for x in e[1]], site, "generator-rest",
+              "the rest of the generator gave %r and evaluated %r" % (rest, lg[:12]), dict(rp, consumed=k))
+
+
+NONCALLABLE = [5, None, 1.5, 0, True]
+
+
+def noncallable_case(ctx, rng, lines, pending):
+    """ll.map(x) with x neither callable nor iterable is accepted lazily; the read raises TypeError after the wrapped
+    callable (and every callable function below x) has been evaluated, and leaves the lists as they were"""
+    site = "C19/map-noncallable"
+    sub = gen_prog(rng, 5, 3)
+    try:
+        expect = ref_eval(sub)
+    except RefErr:
+        return
+    if not expect:
+        return
+    w = World()
+    CUR[0] = w
+    nodes = []
+    try:
+        ll = impl_build(sub, w, nodes)
+    except Exception:      # noqa: BLE001
+        return
+    chain, p = [], sub
+    BAD = 99
+    pos = rng.randint(0, 2)
+    for k in range(3):
+        if k == pos:
+            ll = ll.map(rng.choice(NONCALLABLE))
+            chain.append(BAD)
+            p = ("M", BAD, p)
+        elif rng.random() < 0.7:
+            f = rng.randrange(4)
+            ll = ll.map(w.fn(f))
+            chain.append(f)
+            p = ("M", f, p)
+    rp = {"program": toks(p), "program_tree": repr(p), "non_callable_function_id": BAD}
+    ctx.case(("noncallable",) + tuple(toks(p)), nontrivial=True)
+    ctx.check(not w.take(), site, "construction-evaluated", "mapping a non-callable evaluated something", rp)
+    i = rng.randrange(len(expect))
+    v, lg = expect[i]
+    for f in chain:
+        if f == BAD:
+            break
+        lg = lg + ["c:%d:%d" % (f, v)]
+        v = fn_val(f, v)
+    try:
+        r = ll[i]
+        got = "ok %s" % safe_obs(r)
+    except TypeError:
+        got = "errx type"
+    except Exception as e:      # noqa: BLE001
+        got = "err other:" + type(e).__name__
+    glog = w.take()
+    ctx.check(got == "errx type" and glog == lg, site, "footprint",
+              "reading through a non-callable gave %r and evaluated %r (expected TypeError after %r)" % (got, glog, lg), dict(rp, index=i))
+    try:
+        vals = [safe_obs(nodes[-1][1][k]) for k in range(len(expect))]
+    except Exception as e:      # noqa: BLE001
+        vals = "raised " + type(e).__name__
+    w.take()
+    ctx.check(vals == [e[0] for e in expect], site, "receiver-changed",
+              "the mapped list changed after the failed read: %r vs %r" % (vals, [e[0] for e in expect]), rp)
+    cid = "x%d" % len(lines)
+    lines.append("%s readx 1 %d %d %s" % (cid, BAD, i, " ".join(toks(p))))
+    pending[cid] = (got + " " + fmt_log(glog), dict(rp, index=i), "readx")
 
 
 def special_cases(ctx):
@@ -333,13 +1068,19 @@ def special_cases(ctx):
     from menpo.base import LazyList
     site = "C19/special"
     w = World()
+    CUR[0] = w
     ll = LazyList.init_from_index_callable(w.base(0), 3)
 
     class CallIter(list):
         def __call__(self, x):
             return x
     for what, f, exc in [("ambiguous callable-iterable to map", lambda: ll.map(CallIter([1, 2, 3])), ValueError),
-                         ("non-iterable +", lambda: ll + 5, ValueError)]:
+                         ("non-iterable +", lambda: ll + 5, ValueError),
+                         ("generator of callables to map (no len)", lambda: ll.map(w.fn(k) for k in range(3)), TypeError),
+                         ("float index", lambda: ll[1.5], TypeError),
+                         ("None index", lambda: ll[None], TypeError),
+                         ("slice step 0", lambda: ll[::0], ValueError),
+                         ("slice with float bound", lambda: ll[1.0:], TypeError)]:
         try:
             f()
             ok = False
@@ -350,17 +1091,34 @@ def special_cases(ctx):
         ctx.case(("special", what), nontrivial=True)
         ctx.check(ok, site, "error-kind", what + " is not refused with " + exc.__name__, {"case": what})
     ctx.check(not w.take(), site, "construction-evaluated", "refused operations evaluated something", {})
+    ctx.check([ll[k] for k in range(3)] == [base_val(0, k) for k in range(3)], site, "receiver-changed",
+              "refused operations changed the list", {})
+    w.take()
+    ctx.check(str(ll) == "LazyList containing 3 items" and bool(ll) and not w.take(), site, "construction-evaluated",
+              "str()/bool() of a lazy list evaluated elements or misreport the length", {})
     # init_from_iterable with and without f
     l2 = LazyList.init_from_iterable([5, 6, 7], f=w.fn(1))
     ctx.check(not w.take(), site, "construction-evaluated", "init_from_iterable evaluated", {})
     ctx.check(l2[1] == fn_val(1, 6) and w.take() == ["c:1:6"], site, "value", "init_from_iterable element", {})
     ctx.case(("special", "init_from_iterable"), nontrivial=True)
+    # informational (not judged: pickling is not named by the property)
+    import pickle
+    note = {}
+    for name, mk in [("init_from_iterable(f=abs)", lambda: LazyList.init_from_iterable([1, -2, 3], f=abs)),
+                     ("init_from_iterable()", lambda: LazyList.init_from_iterable([1, 2])),
+                     ("init_from_index_callable(abs, 3).map(abs)", lambda: LazyList.init_from_index_callable(abs, 3).map(abs))]:
+        try:
+            back = pickle.loads(pickle.dumps(mk()))
+            note[name] = "round trip ok: %r" % (list(back),)
+        except Exception as e:      # noqa: BLE001
+            note[name] = "cannot be pickled: %s" % type(e).__name__
+    ctx.notes["pickling_of_lazy_lists"] = note
 
 
 def subprograms(p):
     out = [p]
     for x in p[1:]:
-        if isinstance(x, tuple) and x and isinstance(x[0], str) and x[0] in ("B", "M", "E", "SI", "SS", "R", "A", "AP", "C"):
+        if is_prog(x):
             out += subprograms(x)
     return out
 
@@ -371,13 +1129,36 @@ def shrink(ctx):
     for site, pattern, text, rp in ctx.failures:
         tree = rp.get("program_tree")
         best = None
-        if tree:
+        if site == "C19/getitem-0d-array":
+            # the smallest demonstration is independent of the program it was first seen on
+            from menpo.base import LazyList
+            try:
+                seen = repr(LazyList.init_from_iterable([10, 11, 12])[np.array(1)])
+            except Exception as e:      # noqa: BLE001
+                seen = "%s: %s" % (type(e).__name__, e)
+            if seen != "11":
+                out.append((site, pattern,
+                            "LazyList.init_from_iterable([10, 11, 12])[np.array(1)] gives %s; the ordinary list "
+                            "[10, 11, 12][np.array(1)] gives 11 (a 0-dimensional integer array is an integer index)" % seen,
+                            {"python": "import numpy as np; from menpo.base import LazyList; "
+                                       "LazyList.init_from_iterable([10, 11, 12])[np.array(1)]",
+                             "observed": seen, "ordinary_list": "[10, 11, 12][np.array(1)] == 11",
+                             "first_seen_on": rp.get("program"), "index": rp.get("index"),
+                             "proposed_fix": "notes/fixes/C19-getitem-zero-dim-array-index.diff"}))
+                continue
+        if tree and not rp.get("as_generator") and "non_callable_function_id" not in rp:
             for sub in sorted(subprograms(eval(tree)), key=lambda q: len(toks(q))):
-                c = ctx.scratch()
-                run_program(c, sub, random.Random(0))
-                hit = [f for f in c.failures if f[1] == pattern]
-                if hit:
-                    best = hit[0]
+                for s in range(4):
+                    c = ctx.scratch()
+                    try:
+                        run_program(c, sub, random.Random(s))
+                    except Exception:      # noqa: BLE001
+                        continue
+                    hit = [f for f in c.failures if f[1] == pattern]
+                    if hit:
+                        best = hit[0]
+                        break
+                if best is not None:
                     break
         if best is not None:
             rp = dict(best[3], minimised_from=rp.get("program"))
@@ -389,29 +1170,43 @@ def shrink(ctx):
 # ---------------------------------------------------------------- heap histories: operations on aliased list objects
 
 def heap_history(ctx, rng, lines, pending):
-    """a sequence of operations whose operands are earlier list objects (aliasing, re-use, refused operations);
-    afterwards EVERY list object is re-read and compared with the ordinary-list reference and with the model"""
+    """a sequence of operations whose operands are earlier list objects (aliasing, re-use, refused operations) with
+    reads and iterations in between; afterwards EVERY list object is re-read and compared with the ordinary-list
+    reference and with the model; the log of the whole history is compared too"""
     from menpo.base import LazyList
     site = "C19/heap"
     w = World()
-    objs, refs, ops_tok, ops_py = [], [], [], []
+    CUR[0] = w
+    objs, refs, ops_tok = [], [], []
+    exp_log = []
     n_ops = rng.randint(3, 10)
     for _ in range(n_ops):
-        kind = rng.choice(["hb", "hm", "he", "hsi", "hss", "hr", "ha", "hp", "hc"]) if objs else "hb"
+        kind = rng.choice(["hb", "hm", "he", "hsi", "hss", "hr", "ha", "hp", "hc", "hi", "hg"]) if objs else rng.choice(["hb", "hi", "hg"])
         a = rng.randrange(len(objs)) if objs else 0
         try:
             if kind == "hb":
                 b, n = rng.randrange(3), rng.randint(0, 5)
                 tok, new, ref = ["hb", b, n], (lambda: LazyList.init_from_index_callable(w.base(b), n)), \
-                    [base_val(b, i) for i in range(n)]
+                    [(base_val(b, i), ["a:%d:%d" % (b, i)]) for i in range(n)]
+            elif kind == "hi":
+                q = ("I", rng.choice([None, 0, 2, IDENT]), tuple(rng.randint(-9, 9) for _ in range(rng.randint(0, 4))), "list")
+                tok, new, ref = ["hi"] + toks(q)[1:], (lambda: impl_build(q, w, [])), ref_eval(q)
+            elif kind == "hg":
+                q = ("G", rng.choice(["pk", "lm", "im"]), rng.randrange(N_PAT), rng.choice([None, None, 2, 0]), rng.random() < 0.5, False)
+                tok, new = ["hg"] + toks(q)[1:], (lambda: impl_build(q, w, []))
+                try:
+                    ref = ref_eval(q)
+                except RefErr as e:
+                    ref = e.kind
             elif kind == "hm":
-                f = rng.randrange(4)
-                tok, new, ref = ["hm", f, a], (lambda: objs[a].map(w.fn(f))), [fn_val(f, v) for v in refs[a]]
+                f = rng.choice([0, 1, 2, 3, IDENT])
+                tok, new, ref = ["hm", f, a], (lambda: objs[a].map(w.fn(f))), \
+                    [(fn_val(f, v), lg + ["c:%d:%d" % (f, v)]) for v, lg in refs[a]]
             elif kind == "he":
                 m = len(refs[a]) if rng.random() < 0.85 else len(refs[a]) + 1
                 fs = [rng.randrange(4) for _ in range(m)]
                 tok, new = ["he", m] + fs + [a], (lambda: objs[a].map([w.fn(f) for f in fs]))
-                ref = [fn_val(f, v) for f, v in zip(fs, refs[a])] if m == len(refs[a]) else "value"
+                ref = [(fn_val(f, v), lg + ["c:%d:%d" % (f, v)]) for f, (v, lg) in zip(fs, refs[a])] if m == len(refs[a]) else "value"
             elif kind == "hsi":
                 n = len(refs[a])
                 ints = [rng.randint(-n, n - 1) if n and rng.random() < 0.95 else n + 1 for _ in range(rng.randint(0, 4))]
@@ -423,18 +1218,18 @@ def heap_history(ctx, rng, lines, pending):
             elif kind == "hss":
                 n = len(refs[a])
                 bd = lambda: None if rng.random() < 0.3 else rng.randint(-n - 2, n + 2)
-                sl = (bd(), bd(), rng.choice([None, 1, 2, -1, -2, 3]))
-                tok, new, ref = ["hss"] + ["N" if x is None else x for x in sl] + [a], (lambda: objs[a][slice(*sl)]), \
-                    refs[a][slice(*sl)]
+                sl = (bd(), bd(), rng.choice([None, 1, 2, -1, -2, 3, 0]))
+                tok, new = ["hss"] + ["N" if x is None else x for x in sl] + [a], (lambda: objs[a][slice(*sl)])
+                ref = refs[a][slice(*sl)] if sl[2] != 0 else "value"
             elif kind == "hr":
-                n = rng.randint(0, 3)
-                tok, new, ref = ["hr", n, a], (lambda: objs[a].repeat(n)), [v for v in refs[a] for _ in range(n)]
+                n = rng.randint(-1, 3)
+                tok, new, ref = ["hr", n, a], (lambda: objs[a].repeat(n)), [x for x in refs[a] for _ in range(n)]
             elif kind == "ha":
-                b = rng.randrange(len(objs))
+                b = a if rng.random() < 0.3 else rng.randrange(len(objs))
                 tok, new, ref = ["ha", a, b], (lambda: objs[a] + objs[b]), refs[a] + refs[b]
             elif kind == "hp":
                 vs = [rng.randint(-9, 9) for _ in range(rng.randint(0, 3))]
-                tok, new, ref = ["hp", len(vs)] + vs + [a], (lambda: objs[a] + list(vs)), refs[a] + vs
+                tok, new, ref = ["hp", len(vs)] + vs + [a], (lambda: objs[a] + list(vs)), refs[a] + [(v, []) for v in vs]
             else:
                 tok, new, ref = ["hc", a], (lambda: objs[a].copy()), list(refs[a])
             ops_tok.append(" ".join(str(x) for x in tok))
@@ -453,34 +1248,60 @@ def heap_history(ctx, rng, lines, pending):
             if got_err is None:
                 objs.append(r)
                 refs.append(ref)
+            ctx.check(not w.log, site, "construction-evaluated", "operation %r evaluated callables: %r" % (ops_tok[-1], w.log[:5]), rp)
+            del w.log[:]
+            # reads in between
+            while objs and rng.random() < 0.35:
+                c = rng.randrange(len(objs))
+                if rng.random() < 0.7:
+                    n = len(refs[c])
+                    i = rng.randint(-n - 1, n)
+                    ops_tok.append("rd %d %d" % (c, i))
+                    try:
+                        v, ok = safe_obs(objs[c][i]), True
+                    except IndexError:
+                        v, ok = None, False
+                    try:
+                        (ev, elg), eok = refs[c][i], True
+                    except IndexError:
+                        (ev, elg), eok = (None, []), False
+                    lg = w.take()
+                    ctx.check(ok == eok and v == ev and lg == elg, site, "read-in-history",
+                              "objs[%d][%d] gave %r / evaluated %r, expected %r / %r" % (c, i, v, lg, ev, elg), {"ops": list(ops_tok)})
+                    exp_log += lg
+                else:
+                    ops_tok.append("it %d" % c)
+                    got = [safe_obs(x) for x in objs[c]]
+                    lg = w.take()
+                    ctx.check(got == [e[0] for e in refs[c]] and lg == [x for e in refs[c] for x in e[1]], site, "iterate-in-history",
+                              "list(objs[%d]) gave %r / evaluated %r" % (c, got, lg[:10]), {"ops": list(ops_tok)})
+                    exp_log += lg
         except Exception as e:      # noqa: BLE001
             ctx.fail(site, "raises", "operation %r raised %s" % (ops_tok[-1] if ops_tok else kind, type(e).__name__), {"ops": list(ops_tok)})
             return
-    built = w.take()
     rp = {"ops": ops_tok}
-    ctx.check(not built, site, "construction-evaluated", "the history evaluated callables: %r" % built[:5], rp)
     cells = []
     for k, (o, ref) in enumerate(zip(objs, refs)):
         try:
-            vals = [o[j] for j in range(len(o))]
+            vals = [safe_obs(o[j]) for j in range(len(o))]
         except Exception as e:      # noqa: BLE001
             ctx.fail(site, "read-raises", "reading list object %d after the history raised %s" % (k, type(e).__name__), rp)
             return
-        w.take()
-        ctx.check(vals == ref, site, "receiver-changed",
-                  "list object %d no longer holds what the operation that created it returned: %r vs %r" % (k, vals, ref), rp)
-        cells.append(" | %d%s" % (len(vals), "".join(" %d" % v for v in vals)))
+        lg = w.take()
+        ctx.check(vals == [e[0] for e in ref] and lg == [x for e in ref for x in e[1]], site, "receiver-changed",
+                  "list object %d no longer holds / evaluates what the operation that created it returned: %r vs %r" % (
+                      k, vals, [e[0] for e in ref]), rp)
+        cells.append(" | %d%s" % (len(vals), "".join(" %s" % v for v in vals)))
     ctx.case(("heap", tuple(ops_tok)), nontrivial=len(objs) >= 3, sample={"heap_history": ops_tok})
     ctx.count("heap-history-ops", len(ops_tok))
     cid = "h%d" % len(lines)
-    lines.append("%s heap %d %s" % (cid, len(ops_tok), " ".join(ops_tok)))
-    pending[cid] = ("ok %d" % len(objs) + "".join(cells), rp)
+    lines.append("%s hist %d %s" % (cid, len(ops_tok), " ".join(ops_tok)))
+    pending[cid] = ("ok %d" % len(objs) + "".join(cells) + " # " + fmt_log(exp_log), rp, "hist")
 
 
 def receiver_write_table():
     """for every operation: the instance attributes of the RECEIVER (and of a second operand) it writes"""
     from menpo.base import LazyList
-    import numpy as np
     w = World()
     table = {}
     mk = lambda: LazyList.init_from_index_callable(w.base(0), 4).map(w.fn(1))
@@ -490,6 +1311,7 @@ def receiver_write_table():
         "copy": lambda r: r.copy(), "add_lazy": lambda r: r + other, "add_self": lambda r: r + r, "add_plain": lambda r: r + [1, 2],
         "getitem_int": lambda r: r[1], "getitem_slice": lambda r: r[::-1], "getitem_list": lambda r: r[[0, 0, 3]],
         "getitem_array": lambda r: r[np.array([1, 2])], "len": lambda r: len(r), "iter": lambda r: list(r),
+        "contains": lambda r: 5 in r, "index": lambda r: r.index(r[2]), "count": lambda r: r.count(1), "reversed": lambda r: list(reversed(r)),
     }
     for name, act in acts.items():
         r = mk()
@@ -497,55 +1319,135 @@ def receiver_write_table():
     return table
 
 
+def generated(ctx):
+    t = extract_c19.live_tables(receiver_write_table())
+    ctx.notes["receiver_write_table"] = t["writes"]
+    ctx.notes["getitem_dispatch_observed"] = {r["name"]: r["observed"] for r in t["getitem"]}
+    ok = common.build_generated(ctx, {extract_c19.GEN_FILE: extract_c19.generated_text(t)}, extract_c19.TARGETS,
+                                extract_c19.N_OBLIGATIONS)
+    ctx.case(("dispatch-tables",), nontrivial=True)
+    if not ok and ctx.broken_obligations:
+        ctx.broken_obligations[-1]["obligation"] = "MenpoModel.GenProps.C19 (" + " / ".join(extract_c19.OBLIGATIONS) + ")"
+        ctx.broken_obligations[-1]["observed"] = t
+    return ok
+
+
+def guarded(ctx, site, rp, fn, *args):
+    """run one case; an exception that comes out of menpo code where the property says the call succeeds is an
+    oracle failure of that case, anything else is a harness crash (re-raised -> infrastructure error)"""
+    import traceback
+    try:
+        return fn(*args)
+    except Exception as e:      # noqa: BLE001
+        tb = traceback.extract_tb(e.__traceback__)
+        if not any(os.sep + "menpo" + os.sep in fr.filename for fr in tb):
+            raise
+        where = [fr for fr in tb if os.sep + "menpo" + os.sep in fr.filename][-1]
+        ctx.fail(site, "raises", "%s: %s raised in %s:%d (%s)" % (type(e).__name__, e, os.path.basename(where.filename),
+                                                                   where.lineno, where.name), rp() if callable(rp) else rp)
+        return None
+
+
 def search(ctx):
     """directed search after a broken tie: many more programs through the oracle only"""
     rng = ctx.rng
     for k in range(6000):
         p = gen_prog(rng, 8, 3)
-        run_program(ctx, p, rng)
+        guarded(ctx, "C19/program", {"program": toks(p), "program_tree": repr(p)}, run_program, ctx, p, rng)
         ctx.searched += 1
+        if k % 5 == 0:
+            guarded(ctx, "C19/heap", {}, heap_history, ctx, rng, [], {})
+        if k % 25 == 0:
+            guarded(ctx, "C19/importer-generator", {}, generator_case, ctx, rng, [], {})
+            guarded(ctx, "C19/map-noncallable", {}, noncallable_case, ctx, rng, [], {})
         if ctx.failures:
             return True
     return False
 
 
+def zero_d_verdict(model_coded, model_repaired, obs):
+    """the 0-dimensional index: the implementation must be one of the two modelled dispatches"""
+    return obs == model_repaired or obs == model_coded
+
+
 def run(ctx):
-    common.prepare_lean(ctx, PROP, IMPORTS, THEOREMS)
+    FX[0] = Fixture()
+    try:
+        return _run(ctx)
+    finally:
+        CUR[0] = None
+        FX[0].close()
+        FX[0] = None
+
+
+def _run(ctx):
+    generated(ctx)
+    if ctx.broken_obligations:
+        common.prepare_lean(ctx, PROP, IMPORTS[:1], THEOREMS, targets=TARGETS)
+    else:
+        common.prepare_lean(ctx, PROP, IMPORTS, THEOREMS + GEN_THEOREMS, targets=TARGETS + ["MenpoModel.GenProps.C19"])
     rng = ctx.rng
-    n_prog = ctx.n(1500, 30000)
-    lines, impl_out, progs = [], {}, {}
+    n_prog = ctx.n(3000, 80000)
+    lines, impl_out, progs, extras = [], {}, {}, {}
     special_cases(ctx)
     for k in range(n_prog):
-        p = gen_prog(rng, 8, 3)
-        obs = run_program(ctx, p, rng)
+        p = gen_prog(rng, 10 if k % 4 == 0 else 8, 3)
+        extra = []
+        obs_s = guarded(ctx, "C19/program", {"program": toks(p), "program_tree": repr(p)}, run_program, ctx, p, rng, extra)
         d = depth(p)
         ctx.count("depth:%d" % d)
         ctx.count("top:" + p[0])
+        for q in subprograms(p):
+            if q[0] in ("I", "G", "V", "AS"):
+                ctx.count("leaf-or-op:" + q[0] + (":" + q[1] if q[0] == "G" else ""))
         tk = toks(p)
-        ctx.case(tuple(tk), nontrivial=(d >= 2), sample={"program": " ".join(tk), "implementation": obs})
+        ctx.case(tuple(tk), nontrivial=(d >= 2), sample={"program": " ".join(tk), "implementation": obs_s})
         cid = str(k)
         progs[cid] = p
-        impl_out[cid] = obs
+        impl_out[cid] = obs_s
         lines.append(cid + " all " + " ".join(tk))
-    pend_heap = {}
-    for _ in range(ctx.n(300, 6000)):
-        heap_history(ctx, rng, lines, pend_heap)
-    table = receiver_write_table()
-    ctx.notes["receiver_write_table"] = table
-    ctx.case(("write-table",), nontrivial=True)
-    bad = {k: v for k, v in table.items() if v}
-    ctx.check(not bad, "C19/receiver-attributes", "written",
-              "operations wrote instance attributes of the list they were applied to: %r" % bad, {"table": table})
+        lines.append(cid + "r reflog " + " ".join(tk))
+        for j, (req, o, rp) in enumerate(extra):
+            eid = "%se%d" % (cid, j)
+            if req.startswith("get0d ? "):
+                lines.append(eid + "c get0d coded " + req[8:])
+                lines.append(eid + "p get0d repaired " + req[8:])
+            else:
+                lines.append(eid + " " + req)
+            extras[eid] = (req, o, rp)
+    pend = {}
+    for _ in range(ctx.n(600, 15000)):
+        guarded(ctx, "C19/heap", {}, heap_history, ctx, rng, lines, pend)
+    for _ in range(ctx.n(250, 6000)):
+        guarded(ctx, "C19/importer-generator", {}, generator_case, ctx, rng, lines, pend)
+    for _ in range(ctx.n(250, 6000)):
+        guarded(ctx, "C19/map-noncallable", {}, noncallable_case, ctx, rng, lines, pend)
     model = common.run_driver(PROP, lines)
-    for cid, (obs, rp) in pend_heap.items():
-        if model[cid] != obs:
-            ctx.mismatch("heap", "model %r vs implementation %r" % (model[cid][:200], obs[:200]), rp)
-    for cid, obs in impl_out.items():
-        if obs is None:
+    for cid, (o, rp, op) in pend.items():
+        if model[cid] != o:
+            ctx.mismatch(op, "model %r vs implementation %r" % (model[cid][:300], o[:300]), rp)
+    for cid, o in impl_out.items():
+        if model[cid] != model[cid + "r"]:
+            ctx.mismatch("reflog", "the model's lazy evaluation %r and its provenance reference %r differ" % (
+                model[cid][:200], model[cid + "r"][:200]), {"program": toks(progs[cid])})
+        if o is None:
             continue  # oracle already failed on this case
-        if model[cid] != obs:
-            ctx.mismatch("all", "model %r vs implementation %r" % (model[cid][:200], obs[:200]),
+        if model[cid] != o:
+            ctx.mismatch("all", "model %r vs implementation %r" % (model[cid][:200], o[:200]),
                          {"program": toks(progs[cid]), "program_tree": repr(progs[cid])})
+    zero_d = {"coded": 0, "repaired": 0}
+    for eid, (req, o, rp) in extras.items():
+        if req.startswith("get0d ? "):
+            mc, mr = model[eid + "c"], model[eid + "p"]
+            if o == mr:
+                zero_d["repaired"] += 1
+            elif o == mc:
+                zero_d["coded"] += 1
+            else:
+                ctx.mismatch("get0d", "model (coded) %r / (repaired) %r vs implementation %r" % (mc[:200], mr[:200], o[:200]), rp)
+        elif model[eid] != o:
+            ctx.mismatch(req.split()[0], "model %r vs implementation %r" % (model[eid][:300], o[:300]), rp)
+    ctx.notes["zero_dimensional_index_dispatch_seen"] = zero_d
     shrink(ctx)
     return ctx.finish(search)
 
@@ -554,16 +1456,36 @@ def replay(ctx, path):
     data = json.load(open(path))
     rp = data.get("replay") or (data.get("broken_correspondence") or [{}])[0].get("case", {})
     tree = rp.get("program_tree")
+    if tree is None and data.get("site") == "C19/getitem-0d-array":
+        from menpo.base import LazyList
+        try:
+            seen = repr(LazyList.init_from_iterable([10, 11, 12])[np.array(1)])
+        except Exception as e:      # noqa: BLE001
+            seen = "%s: %s" % (type(e).__name__, e)
+        print("implementation:", seen)
+        print("ordinary list :", [10, 11, 12][np.array(1)])
+        ctx.case(("replay", "0d"))
+        ctx.case(("replay2", "0d"))
+        ctx.check(seen == "11", "C19/getitem-0d-array", "refused",
+                  "LazyList.init_from_iterable([10, 11, 12])[np.array(1)] gives %s, an ordinary list gives 11" % seen, rp)
+        return ctx.finish(None)
     if tree is None:
         print("replay file carries no program")
         return 2
-    p = eval(tree)
-    obs = run_program(ctx, p, ctx.rng)
-    ctx.case(("replay", tree))
-    ctx.case(("replay2", tree))
-    model = common.run_driver(PROP, ["0 all " + " ".join(toks(p))])
-    print("implementation:", obs)
-    print("model         :", model["0"])
-    if obs is not None and model["0"] != obs:
-        ctx.mismatch("all", "model vs implementation differ on the replayed program", {"program": toks(p)})
-    return ctx.finish(None)
+    FX[0] = Fixture()
+    try:
+        p = eval(tree)
+        extra = []
+        obs_s = run_program(ctx, p, ctx.rng, extra)
+        ctx.case(("replay", tree))
+        ctx.case(("replay2", tree))
+        model = common.run_driver(PROP, ["0 all " + " ".join(toks(p))])
+        print("implementation:", obs_s)
+        print("model         :", model["0"])
+        if obs_s is not None and model["0"] != obs_s:
+            ctx.mismatch("all", "model vs implementation differ on the replayed program", {"program": toks(p)})
+        return ctx.finish(None)
+    finally:
+        CUR[0] = None
+        FX[0].close()
+        FX[0] = None
